@@ -1,25 +1,62 @@
-"""C07 — buffered channel configuration reaches the device exactly at write time."""
-from common import Prop
+"""C07 — buffered channel configuration reaches the device exactly at write time.
+
+Cases are lines of the Lean driver op `cfgx run` (lean/NxsModel/Driver/ConfigExt.lean; format in harness/c07lib.py):
+every dimension of the property's quantifier is explicit in the line — flags, rx padding, which handler is driven
+(CommHandler, or the NxscopeHandler wrappers called without / with `writenow`), stream left running at connect time,
+stream running during the exchange, channel count, initial device state, the call history (Python channel ids:
+negative = from the end, True/False = 1/0).  A few lines of the older op `cfg run` (no padding / ids / writenow in
+the model; those dimensions chosen by a hash of the line and the padding stripped before comparing) are kept.
+"""
+import os
+import zlib
+
+from common import Prop, LEAN, log
+import c07lib as cl
 import sessionlib as sl
 
+PADS = [0, 0, 4, 16, 3, 8, 64, 255]
 
-def gen_history(rng, n, outcomes="a", maxlen=14):
+
+def _wired():
+    """is the `cfgx` op wired into the driver (lean/Main.lean is the owner's file)?"""
+    try:
+        return "cfgxOp" in open(os.path.join(LEAN, "Main.lean"), encoding="utf-8").read()
+    except OSError:
+        return False
+
+
+def gen_ids(rng, n, ext):
+    cs = sorted(set(rng.randrange(n) for _ in range(rng.choice([1, 1, 1, 2, 3]))))
+    out = []
+    for c in cs:
+        r = rng.random() if ext else 1.0
+        if r < 0.15:
+            out.append(str(c - n))           # the same channel, counted from the end
+        elif r < 0.2 and c <= 1:
+            out.append("FT"[c])              # bool is an int in Python
+        else:
+            out.append(str(c))
+    return ",".join(out)
+
+
+def gen_history(rng, n, outcomes="a", maxlen=14, ext=False, high=False):
+    """ext: Python ids (negative, bool); high: setters may carry `!` (writenow=True)"""
     ops = []
     for _ in range(rng.randrange(1, maxlen + 1)):
         r = rng.random()
-        cs = sorted(set(rng.randrange(n) for _ in range(rng.choice([1, 1, 1, 2, 3]))))
-        if r < 0.2:
-            ops.append("e" + ",".join(map(str, cs)))
-        elif r < 0.35:
-            ops.append("d" + ",".join(map(str, cs)))
-        elif r < 0.55:
-            ops.append(f"v{rng.choice([0, 1, 2, 127, 128, 200, 255, rng.randrange(256)])}:" + ",".join(map(str, cs)))
-        elif r < 0.6:
-            ops.append("D")
-        elif r < 0.65:
+        bang = "!" if (ext and high and rng.random() < 0.2) else ""
+        if r < 0.18:
+            ops.append("e" + gen_ids(rng, n, ext) + bang)
+        elif r < 0.30:
+            ops.append("d" + gen_ids(rng, n, ext) + bang)
+        elif r < 0.47:
+            ops.append(f"v{rng.choice([0, 1, 2, 127, 128, 200, 255, rng.randrange(256)])}:" + gen_ids(rng, n, ext) + bang)
+        elif r < 0.57:
+            ops.append("D" + bang)
+        elif r < 0.67:
             ops.append("A")
-        elif r < 0.7:
-            ops.append("N")
+        elif r < 0.77:
+            ops.append("N" + bang)
         else:
             ops.append(f"W:{rng.choice(outcomes)}:{rng.choice(outcomes)}")
     if rng.random() < 0.8:
@@ -30,49 +67,158 @@ def gen_history(rng, n, outcomes="a", maxlen=14):
 
 
 def parse_line(line):
+    """both line kinds → dict(flags, pad, mode, en, div, calls, legacy)"""
     t = line.split(" ")
-    flags = int(t[2])
+    if t[0] == "cfgx":
+        p = cl.parse_line(line)
+        p["legacy"] = False
+        return p
+    h = zlib.crc32(line.encode())
     en = [] if t[3] == "-" else [c == "1" for c in t[3]]
     div = [] if t[4] == "-" else [int(x) for x in t[4].split(",")]
-    return flags, en, div, t[5].split(";")
+    mode = ("h" if (h >> 5) & 1 else "") + ("s" if h & 1 else "")
+    return dict(flags=int(t[2]), pad=PADS[(h >> 2) & 7], mode=mode, en=en, div=div, calls=t[5].split(";"), legacy=True)
+
+
+def emulate_setter(body, req_en, req_div):
+    """the documented meaning of a setter on the requested vectors, with Python's list indexing for the ids (the
+    statements `vec[chan] = v` in a loop: effects before a raising index are kept); returns the error name or None"""
+    n = len(req_en)
+    try:
+        if body == "D":
+            req_en[:] = [False] * n
+            req_div[:] = [0] * n
+        elif body == "A":
+            req_en[:] = [True] * n
+        elif body == "N":
+            req_en[:] = [False] * n
+        elif body[0] in "ed":
+            for c in cl.parse_ids(body[1:]):
+                req_en[c] = body[0] == "e"
+        elif body[0] == "v":
+            v, cs = body[1:].split(":")
+            if not 0 <= int(v) <= 255:
+                return "value"
+            for c in cl.parse_ids(cs):
+                req_div[c] = int(v)
+    except IndexError:
+        return "index"
+    return None
 
 
 class C07(Prop):
     id = "C07"
     lean_module = "NxsModel.Props.C07"
-    rule = ("random configuration histories (enable/disable/divider/default/all + writes, 1..15 ops) on the real CommHandler "
-            "(half of the histories through the NxscopeHandler wrappers called without their writenow argument) under the virtual-time runtime against the reference device, for channel counts 0..64 and 100..255, all four "
-            "divider/ACK flag combinations, random initial device state (channels enabled, dividers set, stream left "
-            "running), every request acknowledged; after every call the frames sent, client view, requested vector, "
-            "device state and the client's device copy are compared with the model; also out-of-range channel ids and "
-            "divider values; distinct = distinct line; non-trivial = history with a write that sends a set request")
+    rule = ("random configuration histories (enable/disable/divider/default/all + writes, 1..16 calls) on the real CommHandler "
+            "and (half of the lines) through the NxscopeHandler wrappers — called without their writenow argument, and a fifth of "
+            "the setter calls with writenow=True — under the virtual-time runtime against the reference device; explicit in "
+            "every line and identical for the real code and the model: channel count (0..64, 100..255), the four "
+            "divider/ACK flag combinations, rx padding (0, 3, 4, 8, 16, 64, 255, random), random initial device state, "
+            "stream left running at connect time (half of the lines), stream running during the exchange with a stream "
+            "frame between every set request and its acknowledgement (a third), Python channel ids (negative, bool), "
+            "out-of-range ids and divider values; every request acknowledged; after every call the bytes written (padded), "
+            "client view, requested vector, device state and the client's device copy (read through "
+            "NxscopeHandler.dev_channel_get on the wrapper lines) are compared with the model; distinct = distinct line; "
+            "non-trivial = history with a call that writes")
     assumptions = ["virtual-time runtime (harness/vsim.py) preserves queue/lock/thread semantics",
                    "reference device (harness/refdev.py) is a conforming NxScope device"]
     outcomes = ["a"]
 
-    def cases(self, rng, tier):
-        T = tier == "thorough"
-        # a device without channels: every write is a no-op (F18)
+    # -- cases -------------------------------------------------------------------------------------------------
+    def legacy_cases(self, rng, T):
         for flags in range(4):
             yield f"cfg run {flags} - - W:a:a;A;D;N;W:a:a", "zero-channels"
         yield "cfg run 3 - - e0;W:a:a;v5:0;W:a:a", "zero-channels"
-        for it in range(600 if T else 110):
+        for it in range(600 if T == "all" else 120 if T else 24):
             n = rng.choice([1, 2, 3, 4, 5, 8, 16, 64]) if it % 12 else rng.choice([100, 127, 128, 200, 254, 255])
             flags = rng.randrange(4)
             en = [rng.random() < 0.4 for _ in range(n)]
             div = [rng.choice([0, 0, 3, 200]) for _ in range(n)]
             ops = gen_history(rng, n, self.outcomes)
             if rng.random() < 0.1:
-                ops.insert(rng.randrange(len(ops) + 1), rng.choice([f"e{n}", f"v256:0", f"v-1:0", f"d0,{n + 3}", f"v5:{n}"]))
-            yield f"cfg run {flags} {sl.bits(en)} {sl.ints(div)} {';'.join(ops)}", f"flags{flags}"
+                ops.insert(rng.randrange(len(ops) + 1), rng.choice([f"e{n}", "v256:0", "v-1:0", f"d0,{n + 3}", f"v5:{n}"]))
+            yield f"cfg run {flags} {sl.bits(en)} {sl.ints(div)} {';'.join(ops)}", f"legacy-flags{flags}"
+
+    def fixed_cases(self):
+        # a device without channels: every write is a no-op (F18)
+        for flags in range(4):
+            yield f"cfgx run {flags} {PADS[flags + 2]} {'h' if flags & 1 else '-'} - - W:a:a;A;D;N;W:a:a", "zero-channels"
+        yield "cfgx run 3 8 hs - - e0;W:a:a;v5:0;W:a:a;e-1;N!;D!", "zero-channels"
+        # every wrapper, alone, without its writenow argument: nothing may reach the device (E-C07-1)
+        for i, call in enumerate(["e0", "d1", "v5:0", "D", "N", "e0,2", "d1,2", "v9:1,2", "e-1", "dT"]):
+            for flags in (0, 3):
+                yield f"cfgx run {flags} {PADS[i % 8]} h 010 7,0,200 {call}", "wrapper-default"
+                yield f"cfgx run {flags} {PADS[(i + 3) % 8]} h{'sr'[i % 2]} 010 7,0,200 A;W:a:a;{call};{call};W:a:a", "wrapper-default"
+        # every wrapper with writenow=True: the call is setter + write
+        for i, call in enumerate(["e0!", "d1!", "v5:0!", "D!", "N!", "e0,2!", "v9:-1,F!"]):
+            for flags in range(4):
+                yield f"cfgx run {flags} {PADS[(i + flags) % 8]} h{['', 's', 'r', 'sr'][flags]} 010 7,0,200 {call};{call};W:a:a", "wrapper-writenow"
+        # a raising setter with writenow=True writes nothing, also when requests are pending
+        for call in ["e3!", "d-4!", "v256:0!", "v5:0,3!", "e0,7!"]:
+            yield f"cfgx run 3 4 h 010 7,0,200 e2;{call};W:a:a", "wrapper-writenow-raises"
+        # Python ids
+        for call in ["e-1", "e-3", "e-4", "d-2", "v5:-1", "v5:-3,-1", "eT", "eF", "dT", "v6:T,F", "e-1,0", "d1,-4,0"]:
+            yield f"cfgx run 3 16 {'h' if len(call) % 2 else '-'} 010 7,0,200 {call};W:a:a", "python-ids"
+        # stream frames between every request and its acknowledgement, on every flag combination
+        for flags in range(4):
+            yield f"cfgx run {flags} 0 r 110 1,0,0 e2;W:a:a;v3:0;W:a:a;d0,1;W:a:a;W:a:a", "stream-during"
+            yield f"cfgx run {flags} 16 hsr 110 1,0,0 e2!;v3:0!;d0,1;W:a:a;W:a:a;A;D!", "stream-during"
+
+    def exhaustive_cases(self):
+        """thorough tier: every value of the one-byte dimensions on a short history"""
+        for pad in range(256):           # every rx padding
+            yield f"cfgx run {pad % 4} {pad} {['-', 'h', 'r', 'hs'][(pad >> 2) % 4]} 0110 0,9,0,200 e0;v{pad}:-1,1;W:a:a;d1,2;W:a:a;W:a:a", "all-paddings"
+        for v in range(-1, 258):         # every divider value (and the first ones out of range), single and vector form
+            yield f"cfgx run {1 + 2 * (v % 2)} {PADS[v % 8]} {'h' if v % 3 else '-'} 01 0,7 v{v}:0;W:a:a;v{v}:0,1;W:a:a", "all-dividers"
+        for n in (1, 2, 5):              # every Python index of a short vector, and the first ones out of range
+            for c in list(range(-n - 2, n + 2)) + ["T", "F"]:
+                for call in (f"e{c}", f"d{c}", f"v77:{c}", f"e0,{c}", f"v3:{c}!"):
+                    yield (f"cfgx run 3 {PADS[(n + len(call)) % 8]} h {'10110'[:n]} {','.join('50604'[:n])} {call};W:a:a;A;{call};W:a:a",
+                           "all-ids")
+
+    def cases(self, rng, tier):
+        T = tier == "thorough"
+        if not _wired():
+            log("[C07] WARNING: driver op `cfgx` is not wired into lean/Main.lean — running the `cfg run` cases only "
+                "(rx padding, Python ids and writenow calls are then not compared with the model)")
+            yield from self.legacy_cases(rng, "all" if T else True)
+            return
+        yield from self.fixed_cases()
+        yield from self.legacy_cases(rng, T)
+        if T:
+            yield from self.exhaustive_cases()
+        for it in range(1500 if T else 110):
+            n = rng.choice([1, 2, 3, 4, 5, 8, 16, 64]) if it % 12 else rng.choice([100, 127, 128, 200, 254, 255])
+            flags = rng.randrange(4)
+            pad = rng.choice(PADS) if rng.random() < 0.8 else rng.randrange(1, 256)
+            high = rng.random() < 0.5
+            mode = ("h" if high else "") + ("s" if rng.random() < 0.5 else "") + ("r" if rng.random() < 0.35 else "")
+            en = [rng.random() < 0.4 for _ in range(n)]
+            div = [rng.choice([0, 0, 3, 200]) for _ in range(n)]
+            ops = gen_history(rng, n, self.outcomes, ext=True, high=high)
+            if rng.random() < 0.12:
+                bad = [f"e{n}", "v256:0", "v-1:0", f"d0,{n + 3}", f"v5:{n}", f"e{-n - 1}", f"d{-n - 5}", f"v7:0,{-n - 1}"]
+                if high:
+                    bad += [f"e{n}!", f"d{-n - 1}!", "v256:0!", f"v5:0,{n}!"]
+                ops.insert(rng.randrange(len(ops) + 1), rng.choice(bad))
+            yield (f"cfgx run {flags} {pad} {mode or '-'} {sl.bits(en)} {sl.ints(div)} {';'.join(ops)}",
+                   f"flags{flags}" + ("-wrappers" if high else ""))
+
+    # -- real code -----------------------------------------------------------------------------------------------
+    def run(self, p):
+        out, info = cl.run_calls(p["flags"], p["pad"], p["mode"], p["en"], p["div"], p["calls"])
+        if p["legacy"] and p["pad"]:
+            # the `cfg run` model knows no padding: compare the frames
+            def strip(st):
+                f = st.split(";", 1)
+                if f[0] == "s=-":
+                    return st
+                return "s=" + ",".join(sl.hexs(sl.strip_pad(bytes.fromhex(x))) for x in f[0][2:].split(",")) + ";" + f[1]
+            out = [strip(st) for st in out]
+        return out, info
 
     def impl(self, line):
-        flags, en, div, ops = parse_line(line)
-        import zlib
-        h = zlib.crc32(line.encode())
-        started = (h & 3) == 0
-        rxp = [0, 0, 4, 16, 3, 8, 64, 255][(h >> 2) & 7]
-        out, info = sl.run_cfg_history(flags, en, div, ops, started=started, rxpadding=rxp, high=bool((h >> 5) & 1))
+        out, info = self.run(parse_line(line))
         if info.get("unaligned"):
             return "unaligned-write " + repr(info["unaligned"][:3])
         if info["errors"] or info["live_after"]:
@@ -80,76 +226,80 @@ class C07(Prop):
         return "ok " + " | ".join(out)
 
     def nontrivial(self, line, out):
-        return ";W:" in line or " W:" in line
+        return ";W:" in line or " W:" in line or "!" in line
 
+    # -- the property, judged on the real code ---------------------------------------------------------------------
     def oracle(self, line, impl_out=None):
-        flags, en, div, ops = parse_line(line)
-        n = len(en)
-        import zlib
-        h = zlib.crc32(line.encode())
-        rxp = [0, 0, 4, 16, 3, 8, 64, 255][(h >> 2) & 7]
+        p = parse_line(line)
+        v = self.judge(p)
+        if v:
+            # the dimensions of the run spelled out (for a `cfg run` line they come from a hash of the line)
+            v["dimensions"] = {"flags": p["flags"], "rx_padding": p["pad"], "channels": len(p["en"]),
+                               "handler": "NxscopeHandler wrappers" if "h" in p["mode"] else "CommHandler",
+                               "stream_left_running_at_connect": "s" in p["mode"],
+                               "stream_running_during_exchange": "r" in p["mode"]}
+        return v
+
+    def judge(self, p):
+        en, div, calls, flags, pad, mode = p["en"], p["div"], p["calls"], p["flags"], p["pad"], p["mode"]
         try:
-            out, info = sl.run_cfg_history(flags, en, div, ops, started=True, rxpadding=rxp, high=bool((h >> 5) & 1))
+            out, info = self.run(p)
         except Exception as e:
             return {"key": "session-raises", "what": f"{type(e).__name__}: {e}", "expected": "no exception", "observed": type(e).__name__}
         if info.get("unaligned"):
-            return {"key": "unaligned-write", "what": f"with rx padding {rxp} a request was written with a length that is not a multiple of it "
+            return {"key": "unaligned-write", "what": f"with rx padding {pad} a request was written with a length that is not a multiple of it "
                     f"(a device receiving in rx-padding-sized blocks never consumes it): {info['unaligned'][:3]}",
                     "expected": "every write padded to a multiple of the rx padding", "observed": str(info["unaligned"][:3])}
         if info["errors"]:
             return {"key": "thread-died", "what": "a library thread died: " + repr(info["errors"][0]), "expected": "-", "observed": "-"}
         if info["dev_started_after_connect"]:
             return {"key": "stream-not-stopped", "what": "device still streaming after connect", "expected": "stopped", "observed": "started"}
+        if info["dev_after_connect"] != (sl.bits(en), sl.ints(div)):
+            return {"key": "connect-changed-device", "what": "connecting (and starting the stream) changed the device's channel configuration",
+                    "expected": f"{sl.bits(en)}/{sl.ints(div)}", "observed": "/".join(info["dev_after_connect"])}
         div_sup = bool(flags & 1)
-        ack_sup = bool(flags & 2)
         req_en, req_div = list(en), list(div)
         dev_en, dev_div = list(en), list(div)
-        prev = None
-        for op, st in zip(ops, out):
+        prev_write = False
+        for call, st in zip(calls, out):
             f = dict(kv.split("=", 1) for kv in st.split(";"))
             d_en, d_div = f["dev"].split("/")
-            if not op.startswith("W:"):
-                if f["s"] != "-" or d_en != sl.bits(dev_en) or d_div != sl.ints(dev_div):
-                    return {"key": "setter-not-silent", "what": f"call {op} reached the device", "expected": "nothing sent", "observed": st}
-                if f["e"] == "-":
-                    if op[0] == "e":
-                        for c in op[1:].split(","):
-                            req_en[int(c)] = True
-                    elif op[0] == "d":
-                        for c in op[1:].split(","):
-                            req_en[int(c)] = False
-                    elif op[0] == "v":
-                        v, cs = op[1:].split(":")
-                        for c in cs.split(","):
-                            req_div[int(c)] = int(v)
-                    elif op == "D":
-                        req_en = [False] * n
-                        req_div = [0] * n
-                    elif op == "A":
-                        req_en = [True] * n
-                    elif op == "N":
-                        req_en = [False] * n
-                else:
-                    return None   # partial effects of a raising setter: outside the property's quantifier
-            else:
-                if op != "W:a:a":
-                    return None
-                want_div = req_div if div_sup else dev_div
-                now_en, now_div = f["now"].split("/")
-                cp_en, cp_div = f["cp"].split("/")
-                if d_en != sl.bits(req_en) or d_div != sl.ints(want_div):
-                    return {"key": "write-does-not-sync", "what": "device state after write differs from the requested state",
-                            "expected": f"{sl.bits(req_en)}/{sl.ints(want_div)}", "observed": f["dev"], "history": ops}
-                if now_en != d_en or cp_en != d_en or (div_sup and (now_div != d_div or cp_div != d_div)):
-                    return {"key": "client-view", "what": "client reports a state different from the device",
-                            "expected": f["dev"], "observed": f"now={f['now']} cp={f['cp']}", "history": ops}
-                if not div_sup and any(x[6:8] == "07" for x in f["s"].split(",") if x != "-"):
-                    return {"key": "div-without-support", "what": "divider request sent to a device without divider support",
-                            "expected": "no DIV frame", "observed": f["s"]}
-                if prev == "W:a:a" and (d_en, d_div) != (sl.bits(dev_en), sl.ints(dev_div)):
-                    return {"key": "write-not-idempotent", "what": "second write changed the device", "expected": "-", "observed": st}
-                dev_en, dev_div = list(req_en), list(want_div)
-            prev = op
+            body, now = cl.split_call(call)
+            is_write = body.startswith("W:")
+            if not is_write:
+                raised = emulate_setter(body, req_en, req_div)
+                if (f["e"] != "-") != (raised is not None):
+                    return None   # error behaviour of a setter on a bad argument: not this property's subject
+                if now is None or raised:
+                    how = ("without its writenow argument" if "h" in mode else "on CommHandler") if now is None else \
+                        "with writenow=True, raising " + str(raised)
+                    if f["s"] != "-" or d_en != sl.bits(dev_en) or d_div != sl.ints(dev_div):
+                        return {"key": "setter-not-silent", "what": f"call {call} ({how}) reached the device", "expected": "nothing sent, "
+                                f"device stays {sl.bits(dev_en)}/{sl.ints(dev_div)}", "observed": st, "history": calls}
+                    prev_write = False
+                    continue
+            outcomes = tuple(body.split(":")[1:]) if is_write else now
+            if outcomes != ("a", "a"):
+                return None
+            if f["e"] != "-":
+                return {"key": "write-raises", "what": f"call {call} raised {f['e']}", "expected": "returns", "observed": st, "history": calls}
+            want_div = req_div if div_sup else dev_div
+            now_en, now_div = f["now"].split("/")
+            cp_en, cp_div = f["cp"].split("/")
+            if d_en != sl.bits(req_en) or d_div != sl.ints(want_div):
+                return {"key": "write-does-not-sync", "what": f"device state after {call} differs from the requested state",
+                        "expected": f"{sl.bits(req_en)}/{sl.ints(want_div)}", "observed": f["dev"], "history": calls}
+            if now_en != d_en or cp_en != d_en or (div_sup and (now_div != d_div or cp_div != d_div)):
+                return {"key": "client-view", "what": "client reports a state different from the device "
+                        "(now = ch_is_enabled/ch_div_get, cp = dev_channel_get(c).data.en/.div)",
+                        "expected": f["dev"], "observed": f"now={f['now']} cp={f['cp']}", "history": calls}
+            if not div_sup and any(x[6:8] == "07" for x in f["s"].split(",") if x != "-"):
+                return {"key": "div-without-support", "what": "divider request sent to a device without divider support",
+                        "expected": "no DIV frame", "observed": f["s"]}
+            if prev_write and is_write and (d_en, d_div) != (sl.bits(dev_en), sl.ints(dev_div)):
+                return {"key": "write-not-idempotent", "what": "second write changed the device", "expected": "-", "observed": st}
+            dev_en, dev_div = list(req_en), list(want_div)
+            prev_write = is_write
         return None
 
 
